@@ -425,7 +425,12 @@ func (c *Ctx) checkLoopAccumulation(rule string, m *core.Module, l *mapLoop, bas
 			switch x := in.(type) {
 			case *ssa.Call:
 				if bi, ok := x.Call.Value.(*ssa.Builtin); ok && bi.Name() == "append" {
-					sinks = append(sinks, sink{x, "append", x})
+					// an accumulation only if what is appended to is carried from one iteration to the next: a slice made
+					// anew in every iteration from a value the loop does not change (append(path[:n:n], x) handed to a
+					// callee) collects nothing
+					if appendsToLoopCarried(x.Call.Args[0], l, 0) {
+						sinks = append(sinks, sink{x, "append", x})
+					}
 					continue
 				}
 				n := core.StaticCalleeName(&x.Call)
@@ -1574,4 +1579,44 @@ func dependsOn(v ssa.Value, target ssa.Value, l *mapLoop, depth int) bool {
 		}
 	}
 	return false
+}
+
+// appendsToLoopCarried: the slice v that an append inside loop l extends depends on an earlier iteration: it is, or is
+// sliced from, a phi of the loop, the result of another append in the loop, or a local variable stored in the loop.
+// Values defined outside the loop (parameters, slices of them) are not.
+func appendsToLoopCarried(v ssa.Value, l *mapLoop, depth int) bool {
+	if depth > 6 {
+		return true // not followed any further: stay on the safe side
+	}
+	switch x := v.(type) {
+	case *ssa.Phi:
+		return x.Block() == l.header || l.blocks[x.Block()]
+	case *ssa.Slice:
+		return appendsToLoopCarried(x.X, l, depth+1)
+	case *ssa.Call:
+		if bi, ok := x.Call.Value.(*ssa.Builtin); ok && bi.Name() == "append" {
+			if l.blocks[x.Block()] {
+				return appendsToLoopCarried(x.Call.Args[0], l, depth+1)
+			}
+			return false
+		}
+		return l.blocks[x.Block()]
+	case *ssa.UnOp:
+		if al, ok := x.X.(*ssa.Alloc); ok {
+			for _, r := range *al.Referrers() {
+				if st, ok := r.(*ssa.Store); ok && l.blocks[st.Block()] {
+					return true
+				}
+			}
+			return false
+		}
+		if in, ok := v.(ssa.Instruction); ok {
+			return l.blocks[in.Block()]
+		}
+	case *ssa.Parameter, *ssa.Const, *ssa.FreeVar, *ssa.Global:
+		return false
+	case *ssa.MakeSlice, *ssa.Alloc:
+		return false // made anew where it stands
+	}
+	return true // a form that is not followed: stay on the safe side
 }
